@@ -790,4 +790,55 @@ theorem writer_alone (cfg : Cfg) (pending : List Nat) (s : Sys)
 
 end Alerts
 
+
+/-! ### F. scripts with calls: the modular check implies the check of the inlined script -/
+
+theorem lockOK_append (L : Loc → Mutex) (H : Held) (x y : List Act) :
+    lockOK L H (x ++ y) = (lockOK L H x && lockOK L (x.foldl after H) y) := by
+  induction x generalizing H with
+  | nil => simp [lockOK]
+  | cons a r ih =>
+    simp only [List.cons_append, lockOK, List.foldl_cons, ih, Bool.and_assoc]
+
+/-- one body: if the modular check accepts it in context `H0` from lockset `H1`, and every callee's
+expansion is fine in each of its recorded contexts, then the expanded body passes `lockOK` from
+`H1` and ends with the lockset `H0` -/
+theorem inlineWith_ok (L : Loc → Mutex) (ctxs : Nat → List Held) (callee : Nat → Option (List Act))
+    (hcal : ∀ g H acts, H ∈ ctxs g → callee g = some acts → lockOK L H acts = true ∧ acts.foldl after H = H)
+    (H0 : Held) (body : Body) (H1 : Held) (acts : List Act)
+    (hmod : modOK L ctxs H0 H1 body = true) (hin : inlineWith callee body = some acts) :
+    lockOK L H1 acts = true ∧ acts.foldl after H1 = H0 := by
+  induction body generalizing H1 acts with
+  | nil =>
+    simp only [inlineWith, Option.some.injEq] at hin
+    subst hin
+    simp only [modOK, beq_iff_eq] at hmod
+    simp [lockOK, hmod]
+  | cons p r ih =>
+    cases p with
+    | act a =>
+      simp only [inlineWith, Option.map_eq_some_iff] at hin
+      obtain ⟨acts', hin', rfl⟩ := hin
+      simp only [modOK, Bool.and_eq_true] at hmod
+      obtain ⟨hr, hl⟩ := ih (after H1 a) acts' hmod.2 hin'
+      refine ⟨?_, by simpa [List.foldl_cons] using hl⟩
+      simp only [lockOK, Bool.and_eq_true]
+      exact ⟨hmod.1, hr⟩
+    | call g =>
+      simp only [inlineWith] at hin
+      cases hx : callee g with
+      | none => simp [hx] at hin
+      | some x =>
+        cases hy : inlineWith callee r with
+        | none => simp [hx, hy] at hin
+        | some y =>
+          simp only [hx, hy, Option.some.injEq] at hin
+          subst hin
+          simp only [modOK, Bool.and_eq_true, List.contains_iff_mem] at hmod
+          obtain ⟨hx1, hx2⟩ := hcal g H1 x hmod.1 hx
+          obtain ⟨hr, hl⟩ := ih H1 y hmod.2 hy
+          refine ⟨?_, ?_⟩
+          · rw [lockOK_append, hx1, hx2, hr]; rfl
+          · rw [List.foldl_append, hx2, hl]
+
 end CV.C18
